@@ -343,7 +343,13 @@ class Ctx:
             self.broken_log = out
             return False
         if self.tier == 'thorough' and os.environ.get('VERIF_NO_COQCHK') != '1':
+            self._targets = targets
             self.coqchk()
+            if any(o[0].startswith('coqchk:') and not o[1] for o in self.obligations):
+                # the independent checker refuses the compiled development: the theorems are not established
+                for n in names:
+                    self.obligations.append((n, False, []))
+                return False
         blocks = re.split(r'(?m)^(?=Closed under the global context|Axioms:|Section Variables:)', out)
         blocks = [b.strip() for b in blocks if b.strip()]
         for k, n in enumerate(names):
@@ -354,7 +360,14 @@ class Ctx:
 
     def coqchk(self, timeout=2400):
         """thorough tier: independent re-check of Props/Cxx.vo and everything it depends on, with the axiom list"""
-        rc, out = sh(['coqchk', '-o', '-silent', '-Q', COQ, 'Plinio', 'Plinio.Props.%s' % self.prop], timeout, cwd=COQ)
+        # under the build lock: another check rebuilding a generated file while coqchk reads the .vo files would make it
+        # report 'inconsistent assumptions'; if it does, the targets are rebuilt and coqchk runs once more
+        for attempt in (0, 1):
+            with Lock('coq.lock'):
+                rc, out = sh(['coqchk', '-o', '-silent', '-Q', COQ, 'Plinio', 'Plinio.Props.%s' % self.prop], timeout, cwd=COQ)
+            if rc in (0, 124) or attempt == 1 or 'nconsistent assumptions' not in out:
+                break
+            coq_make(getattr(self, '_targets', None) or ['Props/%s.vo' % self.prop])
         self.checker_cmds.append('coqchk -o -silent -Q /verif/coq Plinio Plinio.Props.%s' % self.prop)
         summ = out[out.find('CONTEXT SUMMARY'):] if 'CONTEXT SUMMARY' in out else out[-1500:]
         m = re.search(r'\* Axioms:(.*?)\n\s*\n\* Constants', summ, flags=re.S)
